@@ -2,13 +2,13 @@
 # tools/process_r5.sh Cxx [Cyy ...] — round-5 sub-agent changes in /tmp/wt5-Cxx/MUT5/{P,Q}: confirm in the scratch
 # worktree, then run the TARGET quick check (C20 changes: ./check C20) with the change applied to /repo (always reverted).
 cd /verif
-mkdir -p work/mutlog5
+LOGD=work/mutlog${ROUND:-5}; mkdir -p $LOGD
 for P in "$@"; do
-  for X in P Q; do
-    [ -f /tmp/wt5-$P/MUT5/$X.diff ] || continue
-    LOG=work/mutlog5/${P}_$X.txt
-    { if [ -f /tmp/wt5-$P/MUT5/demo_$X.rs ]; then tools/confirm_mutant.sh /tmp/wt5-$P $X MUT5; else echo "RESULT /tmp/wt5-$P $X (no rust demo)"; fi
-      python3 tools/selftest.py /tmp/wt5-$P/MUT5/$X.diff $P ${EXTRA:-}
+  for X in ${LETTERS:-P Q}; do
+    [ -f /tmp/wt5-$P/${MUTD:-MUT5}/$X.diff ] || continue
+    LOG=$LOGD/${P}_$X.txt
+    { if [ -f /tmp/wt5-$P/${MUTD:-MUT5}/demo_$X.rs ]; then tools/confirm_mutant.sh /tmp/wt5-$P $X ${MUTD:-MUT5}; else echo "RESULT /tmp/wt5-$P $X (no rust demo)"; fi
+      python3 tools/selftest.py /tmp/wt5-$P/${MUTD:-MUT5}/$X.diff $P ${EXTRA:-}
     } > $LOG 2>&1
     echo "done $P $X: $(grep -E "^$P rc" $LOG | cut -c1-160)"
   done
